@@ -98,3 +98,155 @@ hfunc(B, 'OutPort.__init__', ['self', 'parent', 'name', 'wire'], props=('C11',),
 hfunc(B, 'InPort.__init__', ['self', 'parent', 'name', 'wire'], props=('C11',), uses=['m:isPrimitive', 'm:addSink'],
       modifies=['f:name', 'f:parent', 'f:wire', 'el:sinks', 'len:sinks'],
       ensures=['self.wire == wire and self.parent == parent', _SRC_UNCHANGED])
+
+
+# ------------------------------------------------------------------------------------------------- C05 / C10
+# abstract callee contracts (L1): what the kernel may assume about any leaf
+callee('m:settle', args=[], modifies=['f:value', 'f:#epoch'],
+       ensures=['self.value == old(self.next)', 'forall(lambda o: implies(o != self, o.value == old(o.value)))'])
+
+_INP = 'exists(lambda j: 0 <= j and j < old(len(Wire.prepared)) and old(Wire.prepared[j]) == w)'
+hfunc(B, 'Wire.settleAll', [], props=('C05',), uses=['m:settle'],
+      modifies=['f:value', 'len:Wire.prepared', 'f:#epoch'],
+      invariants={0: 'forall(lambda w: implies(exists(lambda j: 0 <= j and j < _i0 and Wire.prepared[j] == w), w.value == w.next)) and '
+                     'forall(lambda w: implies(not exists(lambda j: 0 <= j and j < _i0 and Wire.prepared[j] == w), w.value == old(w.value)))'},
+      ensures=['len(Wire.prepared) == 0',
+               'forall(lambda w: implies(%s, w.value == old(w.next)))' % _INP,
+               'forall(lambda w: implies(not %s, w.value == old(w.value)))' % _INP])
+
+# obj.clock(): reads values, never stores one; touches only its own state, the `next` of the wires it drives and
+# appends exactly those wires to Wire.prepared.  drv(w) is the leaf driving w (ghost), st its private state (ghost).
+callee('m:clock', args=[], modifies=['f:next', 'f:#st', 'el:Wire.prepared', 'len:Wire.prepared'],
+       ensures=['forall(lambda w: implies(w.source == None or w.source.parent != self, w.next == old(w.next)))',
+                'forall(lambda o: implies(o != self, o.__st == old(o.__st)))',
+                'self.__st == Fstate(self, old(self.__st), epoch())',
+                'forall(lambda w: implies(w.source != None and w.source.parent == self, w.next == Fnext(self, w, old(self.__st), epoch()) or w.next == old(w.next)))',
+                'len(Wire.prepared) >= old(len(Wire.prepared))',
+                'forall(lambda j: implies(0 <= j and j < old(len(Wire.prepared)), Wire.prepared[j] == old(Wire.prepared[j])))',
+                'forall(lambda j: implies(old(len(Wire.prepared)) <= j and j < len(Wire.prepared), Wire.prepared[j].source != None and Wire.prepared[j].source.parent == self))'])
+
+# membership in a duplicate-free list is written with a ghost index function: o is in L  <=>  L[idx(o)] == o
+MEM = lambda lst, owner, o: '(0 <= cidx(%s, %s) and cidx(%s, %s) < len(%s) and %s[cidx(%s, %s)] == %s)' % (owner, o, owner, o, lst, lst, owner, o, o)
+MEMI = lambda lst, owner, o, hi: '(0 <= cidx(%s, %s) and cidx(%s, %s) < %s and %s[cidx(%s, %s)] == %s)' % (owner, o, owner, o, hi, lst, owner, o, o)
+_CL = 'self.clockables'
+_CL_IDX = 'forall(lambda k: implies(0 <= k and k < len(self.clockables), cidx(self, self.clockables[k]) == k))'
+_NEWPREP = lambda hi: ('forall(lambda j: implies(old(len(Wire.prepared)) <= j and j < len(Wire.prepared), Wire.prepared[j].source != None and %s))'
+                       % MEMI(_CL, 'self', 'Wire.prepared[j].source.parent', hi))
+_CLOCKALL_ENS = ['forall(lambda j: implies(0 <= j and j < len(self.clockables), self.clockables[j].__st == Fstate(self.clockables[j], old(self.clockables[j].__st), epoch())))',
+                 'forall(lambda o: implies(not %s, o.__st == old(o.__st)))' % MEM(_CL, 'self', 'o'),
+                 'forall(lambda w: implies(w.source == None or not %s, w.next == old(w.next)))' % MEM(_CL, 'self', 'w.source.parent'),
+                 'forall(lambda j: implies(0 <= j and j < old(len(Wire.prepared)), Wire.prepared[j] == old(Wire.prepared[j])))',
+                 'len(Wire.prepared) >= old(len(Wire.prepared))']
+hfunc(SIMF, 'ClockDriverSimulator.clockAll', ['self'], props=('C05', 'C10'), uses=['m:clock'],
+      requires=[_CL_IDX],
+      modifies=['f:next', 'f:#st', 'el:Wire.prepared', 'len:Wire.prepared'],
+      invariants={0: 'forall(lambda j: implies(0 <= j and j < _i0, self.clockables[j].__st == Fstate(self.clockables[j], old(self.clockables[j].__st), epoch()))) and '
+                     'forall(lambda o: implies(not %s, o.__st == old(o.__st))) and '
+                     'forall(lambda w: implies(w.source == None or not %s, w.next == old(w.next))) and '
+                     'len(Wire.prepared) >= old(len(Wire.prepared)) and '
+                     'forall(lambda j: implies(0 <= j and j < old(len(Wire.prepared)), Wire.prepared[j] == old(Wire.prepared[j])))'
+                     % (MEMI(_CL, 'self', 'o', '_i0'), MEMI(_CL, 'self', 'w.source.parent', '_i0'))},
+      ensures=_CLOCKALL_ENS)
+
+callee('m:clockAll', args=[], modifies=['f:next', 'f:#st', 'el:Wire.prepared', 'len:Wire.prepared'], requires=[_CL_IDX], ensures=_CLOCKALL_ENS)
+callee('m:Wire.settleAll', args=[], modifies=['f:value', 'len:Wire.prepared', 'f:#epoch'],
+       ensures=['len(Wire.prepared) == 0',
+                'forall(lambda w: implies(%s, w.value == old(w.next)))' % _INP,
+                'forall(lambda w: implies(not %s, w.value == old(w.value)))' % _INP])
+callee('m:get', args=[], returns=True, ensures=['result == self.value'])
+# obj.propagate(): writes only the wires it drives; afterwards its outputs agree with its inputs (ghost flag ok),
+# and only blocks that read one of its outputs can lose their ok flag
+callee('m:propagate', args=[], modifies=['f:value', 'f:#epoch', 'f:#ok'],
+       ensures=['forall(lambda w: implies(w.source == None or w.source.parent != self, w.value == old(w.value)))',
+                'implies(not dep(self, self), self.__ok == 1)',
+                'forall(lambda o: implies(o != self and not dep(self, o), o.__ok == old(o.__ok)))'])
+callee('m:_notifyListeners', args=[], modifies=[])
+
+KEYS = 'self.clockDrivers.__keys'
+_EN = lambda d: '(%s.enable == None or old(%s.enable.value) != 0)' % (d, d)
+# o is a sequential leaf registered under the driver of its domain
+_INL = lambda o: '(dom(%s) in self.clockDrivers and %s)' % (o, MEM('self.clockDrivers[dom(%s)].clockables' % o, 'self.clockDrivers[dom(%s)]' % o, o))
+_DONE = lambda o: '(0 <= kidx(dom(%s)) and kidx(dom(%s)) < _i0 and %s[kidx(dom(%s))] == dom(%s))' % (o, o, KEYS, o, o)
+_STEPPED = lambda o: '%s and %s and %s' % (_DONE(o), _INL(o), _EN('dom(%s)' % o))
+hfunc(SIMF, 'Simulator._clk_cycle', ['self'], props=('C05', 'C10'),
+      uses=['m:clockAll', 'm:Wire.settleAll', 'm:get', 'm:propagate', 'm:_notifyListeners'],
+      requires=['forall(lambda j: implies(0 <= j and j < len(%s), %s[j] in self.clockDrivers and kidx(%s[j]) == j))' % (KEYS, KEYS, KEYS),
+                'forall(lambda d: implies(d in self.clockDrivers, 0 <= kidx(d) and kidx(d) < len(%s) and %s[kidx(d)] == d))' % (KEYS, KEYS),
+                # every leaf listed under a driver belongs to that driver's domain; ghost index of each list
+                'forall(lambda d, k: implies(d in self.clockDrivers and 0 <= k and k < len(self.clockDrivers[d].clockables), dom(self.clockDrivers[d].clockables[k]) == d and cidx(self.clockDrivers[d], self.clockDrivers[d].clockables[k]) == k))',
+                'forall(lambda d, e: implies(d in self.clockDrivers and e in self.clockDrivers and d != e, self.clockDrivers[d] != self.clockDrivers[e]))',
+                'len(Wire.prepared) == 0'],
+      modifies=['f:next', 'f:#st', 'el:Wire.prepared', 'len:Wire.prepared', 'f:value', 'f:#epoch', 'f:#ok', 'f:total_clks'],
+      invariants={0: 'forall(lambda o: implies(%s, o.__st == Fstate(o, old(o.__st), old(epoch())))) and '
+                     'forall(lambda o: implies(not (%s), o.__st == old(o.__st)))'
+                     % (_STEPPED('o'), _STEPPED('o')),
+                  1: 'True'},
+      ensures=['self.total_clks == old(self.total_clks) + 1', 'len(Wire.prepared) == 0',
+               # C05: every sequential block of an enabled domain is stepped exactly once on the PRE-edge values (old epoch), whatever the visiting order
+               'forall(lambda o: implies(%s and %s and dom(o) in self.clockDrivers, o.__st == Fstate(o, old(o.__st), old(epoch()))))' % (_INL('o'), _EN('dom(o)')),
+               # C10: blocks of a domain whose enable read 0 before the edge keep their state; so does everything outside all domains
+               'forall(lambda o: implies(not (%s and %s), o.__st == old(o.__st)))' % (_INL('o'), _EN('dom(o)'))])
+
+
+# Simulator.clk(n): n single cycles after one settle; stops early only through stop()
+callee('m:propagateAll', args=[], modifies=['f:value', 'f:#epoch', 'f:#ok'])
+callee('m:_clk_cycle', args=[], modifies=['f:next', 'f:#st', 'el:Wire.prepared', 'len:Wire.prepared', 'f:value', 'f:#epoch', 'f:#ok', 'f:total_clks'],
+       requires=['len(Wire.prepared) == 0'],
+       ensures=['self.total_clks == old(self.total_clks) + 1', 'len(Wire.prepared) == 0',
+                'forall(lambda o: implies(o != self, o.do_run == old(o.do_run)))', 'self.do_run == old(self.do_run)'])
+hfunc(SIMF, 'Simulator.clk', ['self', 'cycles'], props=('C05',), uses=['m:propagateAll', 'm:_clk_cycle'],
+      requires=['len(Wire.prepared) == 0', 'cycles >= 0'],
+      modifies=['f:next', 'f:#st', 'el:Wire.prepared', 'len:Wire.prepared', 'f:value', 'f:#epoch', 'f:#ok', 'f:total_clks', 'f:do_run'],
+      invariants={0: 'self.total_clks == old(self.total_clks) + _i0 and len(Wire.prepared) == 0 and self.do_run == 1'},
+      # exactly `cycles` single-cycle steps (no listener calls stop(): do_run is only written by clk itself / stop()), nothing pending afterwards
+      ensures=['self.total_clks == old(self.total_clks) + cycles', 'len(Wire.prepared) == 0'])
+
+# getObjectClockDriver: nearest ancestor-or-self that has a clock driver (C10)
+callee('f:getObjectClockDriver', args=['obj'], returns=True, raises='nearest(obj) == None',
+       ensures=['result == nearest(obj)'])
+hfunc(B, 'getObjectClockDriver', ['obj'], props=('C10',), uses=['f:getObjectClockDriver'],
+      # ghost: depth(o) = distance to the root (termination measure); nearest(o) = the specification, defined by the recursion equations
+      requires=['depth(obj) >= 0', 'implies(obj.parent != None, depth(obj.parent) >= 0 and depth(obj.parent) < depth(obj))'],
+      axioms=['forall(lambda o: nearest(o) == (o.clockDriver if o.clockDriver != None else (None if o.parent == None else nearest(o.parent))))'],
+      raises_when='nearest(obj) == None',
+      ensures=['result == nearest(obj)', 'result != None'])
+
+
+# ------------------------------------------------------------------------------------------------- C04
+# dep(u, v): block v reads a wire driven by block u.  sorted(P): no block depends on a later one, none on itself.
+_P = 'self.propagatables'
+_SORTED = 'forall(lambda a, b: implies(0 <= a and a <= b and b < len(%s), not dep(%s[b], %s[a])))' % (_P, _P, _P)
+_DISTINCT = 'forall(lambda k: implies(0 <= k and k < len(%s), pidx(%s[k]) == k))' % (_P, _P)
+hfunc(SIMF, 'Simulator.propagateAll', ['self'], props=('C04',), uses=['m:propagate'],
+      requires=[_SORTED, _DISTINCT],
+      modifies=['f:value', 'f:#epoch', 'f:#ok'],
+      invariants={0: 'forall(lambda j: implies(0 <= j and j < _i0, %s[j].__ok == 1))' % _P},
+      # every stateless block's outputs agree with the CURRENT values of its inputs: the netlist sits at its fixpoint
+      ensures=['forall(lambda j: implies(0 <= j and j < len(%s), %s[j].__ok == 1))' % (_P, _P)])
+
+
+# findFirstDependentPosition(obj): -1 iff no block of the evaluation list reads an output of obj, else the least
+# position of one.  ASSUMED here (bounded stand-in in props/C04.py compares it with an independent computation).
+_FFDP = ['(result == -1 and forall(lambda j: implies(0 <= j and j < len(self.propagatables), not dep(obj, self.propagatables[j])))) or '
+         '(0 <= result and result < len(self.propagatables) and dep(obj, self.propagatables[result]) and '
+         'forall(lambda j: implies(0 <= j and j < result, not dep(obj, self.propagatables[j]))))']
+callee('m:findFirstDependentPosition', args=['obj'], returns=True, ensures=_FFDP)
+callee('m:allLeaves', args=[], returns='list')
+callee('m:isClockable', args=[], returns=True)
+callee('m:isPropagatable', args=[], returns=True)
+callee('m:getOrCreateClockDriverSimulator', args=['drv'], returns=True, modifies=['has:clockDrivers', 'val:clockDrivers'])
+callee('m:addClockable', args=['obj'], modifies=['el:clockables', 'len:clockables'])
+callee('f:getObjectClockDriver!abs', args=['obj'], returns=True)
+
+_STRICT = lambda hi: 'forall(lambda a, b: implies(0 <= a and a < b and b < %s, not dep(self.propagatables[b], self.propagatables[a])))' % hi
+hfunc(SIMF, 'Simulator.topologicalSort', ['self'], props=('C04',),
+      uses=['m:findFirstDependentPosition', 'm:allLeaves', 'm:isClockable', 'm:isPropagatable', 'm:getOrCreateClockDriverSimulator', 'm:addClockable', 'f:getObjectClockDriver'],
+      modifies=['len:propagatables', 'el:propagatables', 'has:clockDrivers', 'val:clockDrivers', 'el:clockables', 'len:clockables'],
+      raises_only_when='True',
+      invariants={0: 'True',
+                  # while: a pass that made no change leaves the list sorted along dep
+                  1: 'implies(not anyChange, %s)' % _STRICT('len(self.propagatables)'),
+                  # for: positions below i already checked in this pass (no exchange happened so far)
+                  2: 'implies(not anyChange, %s)' % _STRICT('_i2')},
+      # normal return => every block sits after everything it depends on (strictly; a block reading its own output is not excluded: see known finding)
+      ensures=[_STRICT('len(self.propagatables)')])
